@@ -82,6 +82,10 @@ opaque("yowsup/layers/protocol_notifications/protocolentities/notification_statu
        event="entity.fromNode", returns=Opaque("entity"), raises=True)
 
 
+def notif_up(node):
+    return (attr(node, "type") == "picture" and (truthy(pure_child(node, "set")) or truthy(pure_child(node, "delete")))) or attr(node, "type") == "status"
+
+
 @contract(NOTIF, "YowNotificationsProtocolLayer.recvNotification")
 def recvNotification(self: Obj("YowNotificationsProtocolLayer"), node: Obj("ProtocolTreeNode")):
     raises(ValueError, ensures=n_events("toLower") == 0 and attr(node, "type") == "picture")
@@ -90,6 +94,8 @@ def recvNotification(self: Obj("YowNotificationsProtocolLayer"), node: Obj("Prot
     ensures(n_events("toUpper") <= 1)
     ensures(implies(attr(node, "type") == "status", n_events("toUpper") == 1 and same_obj(event_arg("toUpper", 0), event_result("entity.fromNode", 0))))
     ensures(implies(not (attr(node, "type") == "picture" or attr(node, "type") == "status"), n_events("toUpper") == 0))
+    # exactly the picture (set / delete) and status notifications surface here (C06 composes this guard with the other layers')
+    ensures(n_events("toUpper") == (1 if notif_up(node) else 0))
     propagates("toUpper")
     propagates("toLower")
     propagates("entity.fromNode")
